@@ -530,6 +530,10 @@ def render_ts(case):
             head.append("import { defineComponent as dc, type SetupContext } from 'vue'")
             head.append("import { defineComponent } from './x'")
             head.append("export const unrelated = dc(() => () => null)")
+        elif prov == "alias_plus_local":
+            # Vue's defineComponent under an alias; the name itself is a local function, declared after its use (hoisted)
+            head.append("import { defineComponent as dc, type SetupContext } from 'vue'")
+            head.append("export const unrelated = dc(() => () => null)")
         else:
             raise ValueError("provenance " + prov)
         # another component defined inside the options of this one (not itself a variable's initialiser)
@@ -567,6 +571,8 @@ def render_ts(case):
             elif decl == "bare":
                 lines += [f"export const C0 = [{call}][0]"]
             exports = [{"name": "default" if decl == "export_default" else "C0", "kind": "value"}]
+            if prov == "alias_plus_local":
+                lines.append("function defineComponent(a: any, b?: any) { return $dc(a, b) }")
         return {"case": case["case"], "src": "\n".join(lines) + "\n", "lang": "tsx",
                 "opts": case.get("optsJson") or opts_json(case["opts"]), "want": [], "env": {}, "vals": {},
                 "exports": exports, "pragmas": [], "other_imports": {"./x": ["defineComponent"]}}
@@ -621,7 +627,10 @@ def render_ts(case):
     if kind in ("props", "rtype"):
         params = f'(props: {ts_type(case["type"])})'
     elif kind == "emits":
-        params = f'(props: {{ a?: string }}, ctx: SetupContext<{ts_type(case["type"])}>)' if case.get("annotated", True) \
+        cf = case.get("ctxform", "plain")
+        pname = "{ emit }" if "destructured" in cf else "ctx"
+        targs = ts_type(case["type"]) + (", { default: () => any }" if "slots2" in cf else "")
+        params = f'(props: {{ a?: string }}, {pname}: SetupContext<{targs}>)' if case.get("annotated", True) \
             else f'(props: {{ a?: string }}, ctx)'
     else:
         raise ValueError("ts case " + kind)
